@@ -315,22 +315,9 @@ func checkC11(r *core.Result) {
 		if f.Decl == nil {
 			continue
 		}
-		ast.Inspect(f.Decl.Body, func(n ast.Node) bool {
-			var targets []ast.Expr
-			switch x := n.(type) {
-			case *ast.AssignStmt:
-				targets = x.Lhs
-			case *ast.IncDecStmt:
-				targets = []ast.Expr{x.X}
-			}
-			for _, t := range targets {
-				if id := rootIdent(t); id != nil {
-					if v, ok := info.Uses[id].(*types.Var); ok && v.Pkg() == root.Types && v.Parent() == root.Types.Scope() {
-						r.Ob("D6", f.Name+" writes package-level "+id.Name, prog.Pos(t.Pos()), false, "package-level state written outside initialisation")
-					}
-				}
-			}
-			return true
+		f := f
+		pkgLevelWrites(info, f.Decl.Body, false, func(pos token.Pos, v *types.Var, how string) {
+			r.Ob("D6", f.Name+" writes package-level "+v.Name(), prog.Pos(pos), false, "package-level state "+v.Pkg().Name()+"."+v.Name()+" is "+how+" outside initialisation")
 		})
 	}
 	// D7
